@@ -17,10 +17,12 @@ import (
 	"io"
 	"os"
 	"path/filepath"
+	"runtime"
 	"sort"
 	"strconv"
 	"strings"
 	"sync"
+	"syscall"
 	"testing"
 
 	"github.com/snapcore/snapd/osutil"
@@ -422,6 +424,15 @@ func TestVerifSyncDir(t *testing.T) {
 		cases = append(cases, c)
 	}
 	mustNil(sc.Err())
+	// EnsureFileState calls FileState.State() up to three times per file and closes only the readers used
+	// for the comparison; a FileReference therefore leaves *os.File values to the garbage collector's
+	// finalizers. Over 10^5 executions that exhausts the descriptor table unless the limit is raised and
+	// the collector is run now and then (done below, every 128 executions per worker).
+	var rl syscall.Rlimit
+	if err := syscall.Getrlimit(syscall.RLIMIT_NOFILE, &rl); err == nil && rl.Cur < rl.Max {
+		rl.Cur = rl.Max
+		syscall.Setrlimit(syscall.RLIMIT_NOFILE, &rl)
+	}
 	nw := 4
 	if s := os.Getenv("VERIF_PAR"); s != "" {
 		nw, _ = strconv.Atoi(s)
@@ -445,8 +456,9 @@ func TestVerifSyncDir(t *testing.T) {
 					runs = 1
 				}
 				for k := 0; k < runs; k++ {
-					root := filepath.Join(tmp, fmt.Sprintf("w%d", w))
-					os.RemoveAll(root)
+					// a fresh directory for every execution (never reused, so a cleanup that failed
+					// cannot leak into a later case)
+					root := filepath.Join(tmp, fmt.Sprintf("w%d", w), fmt.Sprintf("r%d", n))
 					mustNil(os.MkdirAll(root, 0755))
 					var o outcome
 					if c.Tree {
@@ -455,6 +467,9 @@ func TestVerifSyncDir(t *testing.T) {
 						o = runDirCase(c, root, c.Flavour+k)
 					}
 					n++
+					if n%128 == 0 {
+						runtime.GC()
+					}
 					msg := o.ErrMsg
 					o.ErrMsg = ""
 					b, _ := json.Marshal(o)
@@ -466,7 +481,11 @@ func TestVerifSyncDir(t *testing.T) {
 						r.Outs = append(r.Outs, o)
 						r.Seen = append(r.Seen, 1)
 					}
-					os.RemoveAll(root)
+					if err := os.RemoveAll(root); err != nil {
+						if err = os.RemoveAll(root); err != nil {
+							t.Logf("VERIF_CLEANUP_FAILED %s: %v", root, err)
+						}
+					}
 				}
 				results[i] = r
 			}
